@@ -81,3 +81,27 @@ pub mod string_eq_facts {
     pub broadcast axiom fn axiom_string_eq_is_view_eq(a: String, b: String)
         ensures #[trigger] a.eq_spec(&b) == (a@ == b@);
 }
+
+// `dead_ends: HashSet<String>` (R9 + R16): the set of type ids, by their characters. ASSUMED: std's HashSet<String> finds a string by its
+// contents (the String Borrow/Hash/Eq agreement assumed wherever a string-keyed table is used).
+#[verifier::external_body] pub struct DeadEnds { _p: () }
+impl DeadEnds {
+    pub uninterp spec fn view(&self) -> Set<Seq<char>>;
+}
+/// `self.dead_ends.contains(&id)`
+#[verifier::external_body]
+pub fn shim_dead_contains(d: &DeadEnds, id: &String) -> (r: bool)
+    ensures r == d@.contains(id@),
+{ unimplemented!() }
+/// `self.dead_ends.insert(id);` -- the ghost argument is the condition the code tested: a type may be recorded as a dead end only if
+/// no loop was encountered while it was being checked
+#[verifier::external_body]
+pub fn shim_dead_insert(d: &mut DeadEnds, id: String, no_loop_while_checking: Ghost<bool>)
+    requires no_loop_while_checking@,   /*@cl C05.dead_end.only_without_loops|permission*/
+    ensures final(d)@ == old(d)@.insert(id@),
+{ unimplemented!() }
+/// `self.loops_encountered += 1;` ASSUMED not to wrap: a 64-bit count of search steps
+#[verifier::external_body]
+pub fn shim_count_loop(n: &mut usize)
+    ensures *final(n) == *old(n) + 1,
+{ unimplemented!() }
